@@ -1,6 +1,6 @@
 (** Property C11 — the theorems the check counts as obligations.  Nothing but
     statements closed by [exact] and [Print Assumptions]. *)
-From HS Require Import Base.Prelude C11.Model C11.NodeProofs.
+From HS Require Import Base.Prelude C11.Model C11.NodeProofs C11.Election.
 Local Open Scope Z_scope.
 
 (** Each node applies indices 1,2,3,... in order without gaps or repeats, for
@@ -15,3 +15,32 @@ Theorem c11_apply_in_order : forall ids i inputs,
   (forall f idx c, In (f, idx, c) (resolved n) -> In (idx, c) (applied n)).
 Proof. exact apply_in_order. Qed.
 Print Assumptions c11_apply_in_order.
+
+(** Election safety of the cluster model, for EVERY schedule of deliveries in
+    any order, drops (loss, partitions, crashes), timeouts at any moment,
+    heartbeats and client submits, every cluster (any duplicate-free id list):
+    no term ever has two leaders ([led] is the history of all (term, node)
+    that were ever leader). *)
+Theorem c11_election_safety : forall l acts, NoDup l ->
+  let w := net_run (net_init l) acts in
+  forall t a b, In (t, a) (led w) -> In (t, b) (led w) -> a = b.
+Proof. exact election_safety. Qed.
+Print Assumptions c11_election_safety.
+
+(** ... in particular two nodes that are leader at the same moment are in
+    different terms. *)
+Theorem c11_one_leader_per_term : forall l acts, NoDup l ->
+  let w := net_run (net_init l) acts in
+  forall a b, In a l -> In b l ->
+  role (nodes w a) = Leader -> role (nodes w b) = Leader ->
+  term (nodes w a) = term (nodes w b) -> a = b.
+Proof. exact one_leader_per_term. Qed.
+Print Assumptions c11_one_leader_per_term.
+
+(** The invariant behind it: a node's vote in a term is unique, and every
+    handler invocation keeps term monotone and the vote of an unchanged term. *)
+Theorem c11_vote_once_per_term : forall l acts, NoDup l ->
+  let w := net_run (net_init l) acts in
+  forall v t c c', In (v, t, c) (cast w) -> In (v, t, c') (cast w) -> c = c'.
+Proof. exact vote_once_per_term. Qed.
+Print Assumptions c11_vote_once_per_term.
